@@ -150,7 +150,12 @@ class BufferedPipe:
                     self._cv.wait(timeout)
                     if timeout is not None:
                         timeout -= time.time() - then
-                        if timeout <= 0.0:
+                        # only a timeout if there is still nothing to return
+                        if (
+                            timeout <= 0.0
+                            and (len(self._buffer) == 0)
+                            and not self._closed
+                        ):
                             raise PipeTimeout()
 
             # something's in the buffer and we have the lock!
